@@ -21,7 +21,7 @@ ASSUMPTIONS = [
     "an encoded '.notdef' (maps to glyph 0 = unmapped) and UVS data on unmapped base code points are outside the statement and not generated",
 ]
 N = {"quick": (8, 500), "thorough": (16, 2500)}
-FLOORS = {"argument-overrides-stored-order": 0.05, "supplementary-cp": 0.1, "order-reorders": 0.1, "duplicate-cp-rejected": 0.01, "uvs": 0.05}
+FLOORS = {"argument-overrides-stored-order": 0.025, "supplementary-cp": 0.092, "order-reorders": 0.061, "duplicate-cp-rejected": 0.008, "uvs": 0.05}  # a third of the measured frequency: a starving generator is a harness error, sampling noise is not
 
 NAMES = [".notdef", "a", "b", "c", "B", "zz", "a.alt", "_x", "A", "f_i", "uni0041"]
 CPS = [0x20, 0x41, 0x61, 0xFFFD, 0xFFFE, 0xFFFF, 0x10000, 0x10001, 0x1F600, 0x10FFFF, 0x3042, 0x0, 0xD, 0xE000, 0xF0000]
